@@ -71,6 +71,24 @@ def runOps (bf : Bool) (cfg : BFCfg) (ops : List Json) : List Json :=
       else
         let r := bfPilotStates RPVerif.Gen.bfUpdateAnyEligible cfg s walk.2.1
         (r.1, walk.1, outs ++ [Json.mkObj [("outs", jl (r.2.1.map jout)), ("err", jerr r.2.2), ("state", jstate r.1)]])
+    else if kind == "mixed_states" then
+      -- ONE notification naming pilots and tasks (Backfilling)
+      let things := jarr o "things"
+      let pilots := things.filter (fun x => match jget x "pid" with | .null => false | _ => true)
+      let tasks  := things.filter (fun x => match jget x "pid" with | .null => true | _ => false)
+      let walk := pilots.foldl (fun (a : List (Nat × RPVerif.States.St) × List (Nat × Option Nat) × Bool) u =>
+        if a.2.2 then a else
+        let pid := jnat u "pid"
+        match progressed a.1 pid (Driver.States.ofName "pilot" (jstr u "state")) with
+        | none   => (a.1, a.2.1, true)
+        | some t => ((a.1.filter (fun p => p.1 ≠ pid)) ++ [(pid, t)], a.2.1 ++ [(pid, some (t.val n))], false)) (full, [], false)
+      if walk.2.2 then
+        let s' := { s with pilots := (touchAll s.pilots walk.2.1).1 }
+        (s', walk.1, outs ++ [Json.mkObj [("outs", jl []), ("err", Json.str "ValueError"), ("state", jstate s')]])
+      else
+        let r := bfMixed RPVerif.Gen.bfUpdateAnyEligible RPVerif.Gen.bfStatesPilotsFirst cfg 10 s walk.2.1
+                   (tasks.map (fun t => (jnat t "uid", jnatOpt t "pilot", jnat t "sv", jnat t "cores")))
+        (r.1, walk.1, outs ++ [Json.mkObj [("outs", jl (r.2.1.map jout)), ("err", jerr r.2.2), ("state", jstate r.1)]])
     else
       let op : Op :=
         if kind == "add" then .addPilots ((jarr o "pids").map asNat) ((jarr o "cores").map asNat)
